@@ -236,6 +236,10 @@ func OnItemCollection(it Item, fn WithItemCollectionFn) error {
 	if err != nil {
 		return err
 	}
+	if col == nil {
+		// a nil pointer to a collection has no items to work on
+		return nil
+	}
 	return fn(col)
 }
 
@@ -260,7 +264,7 @@ func OnIRIs(it Item, fn WithIRIsFn) error {
 // objects. It basically wraps functionality for the different collection types
 // supported by the package.
 func OnCollectionIntf(it Item, fn WithCollectionInterfaceFn) error {
-	if it == nil {
+	if IsNil(it) {
 		return nil
 	}
 	switch it.GetType() {
